@@ -32,6 +32,8 @@ Off(x) == A!Wrap(x.point + A!M - x.lower, S)
 B == 2^W
 T == 2^(S - W)
 
+\* (the IF below is, verbatim, the action Step of proofs/RangeMessage.tla, whose theorem DecoderMessage lifts DecoderStep to
+\* unbounded messages: T <= range and off < range in every reachable state)
 DecBridge == (kind = "dec" /\ A!DecInv(d)) => \A P \in A!Precisions :
     LET N == 2^P
         off == Off(d)
